@@ -21,7 +21,8 @@ pub const F_CWD: u32 = 256;
 pub const F_ARGV: u32 = 512;
 pub const F_IDENT: u32 = 1024;
 pub const F_FS: u32 = 2048;
-pub const ALL_FAULTS: [(u32, &str); 12] = [(F_IDENT, "identity"), (F_FS, "filesystem"), (F_ENTROPY, "entropy"), (F_THREAD, "thread"), (F_HISTORY, "history"), (F_ENV, "env"), (F_CLOCK, "clock"), (F_HEAP, "heap"), (F_PID, "pid"), (F_ORDER, "order_policy"), (F_CWD, "cwd"), (F_ARGV, "argv")];
+pub const F_DISK: u32 = 4096;
+pub const ALL_FAULTS: [(u32, &str); 13] = [(F_DISK, "warm_disk"), (F_IDENT, "identity"), (F_FS, "filesystem"), (F_ENTROPY, "entropy"), (F_THREAD, "thread"), (F_HISTORY, "history"), (F_ENV, "env"), (F_CLOCK, "clock"), (F_HEAP, "heap"), (F_PID, "pid"), (F_ORDER, "order_policy"), (F_CWD, "cwd"), (F_ARGV, "argv")];
 
 pub fn fault_names(mask: u32) -> Vec<&'static str> {
     ALL_FAULTS.iter().filter(|(b, _)| mask & b != 0).map(|(_, n)| *n).collect()
@@ -98,12 +99,15 @@ pub struct HostCfg {
     pub ncpu: Option<u32>,
     /// file-system view during expansions: (kind 'R' redirect | 'N' absent, key, content for R)
     pub fs_map: Vec<(char, String, String)>,
+    /// simulated disk (where an expansion's writes land): false = cold, wiped before this host
+    /// starts; true = warm, as the previous host of the world left it
+    pub warm_disk: bool,
     pub events: Vec<Event>,
 }
 
 impl HostCfg {
     pub fn reference() -> HostCfg {
-        HostCfg { entropy_seed: 0, entropy_skip: 0, env: vec![], clock_epoch_ns: 0, clock_step_ns: 1, pid: 1000, cwd: "/".into(), argv: vec![], hostname: None, uid: None, ncpu: None, fs_map: vec![], events: vec![] }
+        HostCfg { entropy_seed: 0, entropy_skip: 0, env: vec![], clock_epoch_ns: 0, clock_step_ns: 1, pid: 1000, cwd: "/".into(), argv: vec![], hostname: None, uid: None, ncpu: None, fs_map: vec![], warm_disk: false, events: vec![] }
     }
 
     /// which fault dimensions of `self` differ from the reference configuration
@@ -133,8 +137,16 @@ impl HostCfg {
         if self.fs_map != reference.fs_map {
             m |= F_FS
         }
+        if self.warm_disk != reference.warm_disk {
+            m |= F_DISK
+        }
         m
     }
+}
+
+thread_local! {
+    /// which private scratch area (redirect files, simulated disk) the calling thread uses
+    pub static SLOT: std::cell::Cell<usize> = const { std::cell::Cell::new(999) };
 }
 
 pub struct Env {
@@ -175,7 +187,7 @@ pub struct Obs {
 #[derive(Clone, Debug, Default, PartialEq, Eq)]
 pub struct HostLog {
     pub obs: Vec<Obs>,
-    pub counters: [u64; 9],
+    pub counters: [u64; 10],
     pub env_names: String,
     pub shim_flags: u32,
     pub fs_calls: u64,
@@ -298,6 +310,12 @@ pub fn run_host(env: &Env, backend: Backend, build: Build, texts: &[(u32, String
     if let Some(n) = cfg.ncpu {
         cmd.env("SIM_NCPU", n.to_string());
     }
+    // private scratch area of the calling worker: redirect targets (rewritten for every host)
+    // and the simulated disk
+    let slot_dir = env.fs_dir.join(format!("s{}", SLOT.with(|s| s.get())));
+    let redir = slot_dir.join("redir");
+    let _ = std::fs::remove_dir_all(&redir);
+    std::fs::create_dir_all(&redir).map_err(|e| HarnessError(format!("create {}: {}", redir.display(), e)))?;
     {
         // the kernel's entropy devices are always answered from the host's seeded stream:
         // a direct read of /dev/urandom must not be a way around the getrandom seam
@@ -316,19 +334,24 @@ pub fn run_host(env: &Env, backend: Backend, build: Build, texts: &[(u32, String
         for (kind, key, content) in &entries {
             if *kind == 'R' {
                 let name = format!("f-{:016x}", crate::prng::fnv64(content.as_bytes()));
-                let path = env.fs_dir.join(&name);
-                if !path.exists() {
-                    let tmp = env.fs_dir.join(format!("{}.tmp{}", name, std::process::id()));
-                    let _ = std::fs::create_dir_all(&env.fs_dir);
-                    std::fs::write(&tmp, content).map_err(|e| HarnessError(format!("write {}: {}", tmp.display(), e)))?;
-                    let _ = std::fs::rename(&tmp, &path);
-                }
+                let path = redir.join(&name);
+                std::fs::write(&path, content).map_err(|e| HarnessError(format!("write {}: {}", path.display(), e)))?;
                 map.push_str(&format!("R\t{}\t{}\n", key, path.display()));
             } else {
                 map.push_str(&format!("N\t{}\t\n", key));
             }
         }
         cmd.env("SIM_FS_MAP", map);
+    }
+    {
+        // the simulated disk of this worker thread: a cold host starts on an empty one, a warm
+        // host on whatever the previous host (run by this thread) left behind
+        let disk = slot_dir.join("disk");
+        if !cfg.warm_disk {
+            let _ = std::fs::remove_dir_all(&disk);
+        }
+        std::fs::create_dir_all(&disk).map_err(|e| HarnessError(format!("create {}: {}", disk.display(), e)))?;
+        cmd.env("SIM_DISK_DIR", &disk);
     }
     cmd.arg("--require-shim");
     cmd.args(&cfg.argv);
@@ -392,14 +415,14 @@ pub fn parse_log(out: &str) -> Result<HostLog, HarnessError> {
                     }
                 }
             },
-            "S" if f.len() == 14 => {
-                for i in 0..9 {
+            "S" if f.len() == 15 => {
+                for i in 0..10 {
                     log.counters[i] = f[1 + i].parse().map_err(|_| HarnessError("bad S".into()))?;
                 }
-                log.env_names = unesc(f[10]);
-                log.shim_flags = f[11].parse().map_err(|_| HarnessError("bad S".into()))?;
-                log.fs_calls = f[12].parse().map_err(|_| HarnessError("bad S".into()))?;
-                log.fs_names = unesc(f[13]);
+                log.env_names = unesc(f[11]);
+                log.shim_flags = f[12].parse().map_err(|_| HarnessError("bad S".into()))?;
+                log.fs_calls = f[13].parse().map_err(|_| HarnessError("bad S".into()))?;
+                log.fs_names = unesc(f[14]);
                 saw_s = true;
             },
             "A" => log.addrs.push(line.to_string()),
@@ -619,6 +642,9 @@ pub fn plan_world(ws: u64, corpus: &Corpus, o: &PlanOpts) -> World {
         }
         if f & F_FS != 0 {
             cfg.fs_map = plan_fs(&mut rng, &o.fs_feedback);
+        }
+        if f & F_DISK != 0 {
+            cfg.warm_disk = rng.chance(2, 3);
         }
         // history
         let nthreads = if f & F_THREAD != 0 { rng.range(2, 4) } else { 1 };
